@@ -35,7 +35,8 @@ def bounds(tier):
 def units(tier):
     n = len(_terms(tier))
     step = 10 if tier == "quick" else 12
-    return [("pairs", tier, i, min(n, i + step)) for i in range(0, n, step)] + [("laws", tier, i, min(n, i + 40)) for i in range(0, n, 40)]
+    return ([("pairs", tier, i, min(n, i + step)) for i in range(0, n, step)] + [("laws", tier, i, min(n, i + 40)) for i in range(0, n, 40)]
+            + [("typeddict", tier, 0, 0)] + [("protocol", tier, k, 0) for k in range(4)])
 
 
 _CACHE = {}
@@ -213,18 +214,159 @@ def _laws(res, tier, lo, hi):
                                       "%s accepts %s but (%s | %s) does not" % (a, b1, a, b2))
 
 
+# ---- TypedDict family: keys a, b with every required/readonly/type combination ------------------
+
+def td_family():
+    ents = [None]
+    for typ in ("int", "str", "bool"):
+        for req in (True, False):
+            for ro in (False, True):
+                ents.append((typ, req, ro))
+    bs = [None, ("int", True, False), ("str", False, True)]
+    fam = []
+    for ea in ents:
+        for eb in bs:
+            spec = {}
+            if ea:
+                spec["a"] = ea
+            if eb:
+                spec["b"] = eb
+            fam.append(spec)
+    return fam
+
+
+def _td_objects():
+    vals = [None, 1, True, "x"]
+    out = []
+    for va in vals:
+        for vb in vals:
+            d = {}
+            if va is not None:
+                d["a"] = va
+            if vb is not None:
+                d["b"] = vb
+            out.append(d)
+    out.append({"c": 1})
+    out.append({"a": 1, "c": "x"})
+    return out
+
+
+_PY = {"int": int, "str": str, "bool": bool}
+
+
+def _td_member(o, spec):
+    for k, (typ, req, ro) in spec.items():
+        if k in o:
+            if not isinstance(o[k], _PY[typ]):
+                return False
+        elif req:
+            return False
+    return True     # open TypedDict: extra keys allowed
+
+
+def _td_str(spec):
+    return "TD{" + ", ".join("%s: %s%s%s" % (k, "ReadOnly " if ro else "", "" if req else "NotRequired ", typ) for k, (typ, req, ro) in spec.items()) + "}"
+
+
+def _typeddict(res, tier, only=None):
+    from pyanalyze.value import TypedDictEntry, TypedDictValue, TypedValue
+    from pa.run import get_checker
+    ck = get_checker()
+    fam = td_family()
+    objs = _td_objects()
+    vals = [TypedDictValue({k: TypedDictEntry(TypedValue(_PY[t]), required=req, readonly=ro) for k, (t, req, ro) in spec.items()}) for spec in fam]
+    n = len(fam)
+    for i, a in enumerate(fam):
+        for j, b in enumerate(fam):
+            if only is not None and (i, j) != tuple(only):
+                continue
+            res.states += 1
+            acc = _accepts(vals[i], vals[j], ck)
+            res.transitions += 1
+            res.validated += 1
+            wit = [o for o in objs if _td_member(o, b) and not _td_member(o, a)]
+            res.outcomes["td:accepted=%s/subset=%s" % (acc, not wit)] += 1
+            order = 10 ** 9 + i * n + j
+            if acc and wit:
+                flags = lambda s: ",".join("%s:%s%s" % (k, "ro" if ro else "rw", "req" if req else "opt") for k, (t, req, ro) in sorted(s.items()))
+                res.violation({"law": "typeddict-soundness", "A": flags(a), "B": flags(b)}, {"td": [i, j], "order": order},
+                              "%s accepts %s, yet %r belongs to the latter and not to the former" % (_td_str(a), _td_str(b), wit[0]))
+            if i == j and not acc:
+                res.violation({"law": "reflexivity", "A": _td_str(a)}, {"td": [i, j], "order": order}, "%s does not accept itself" % _td_str(a))
+    res.sample({"A": _td_str(fam[5]), "B": _td_str(fam[9]), "accepted": _accepts(vals[5], vals[9], ck)})
+
+
+# ---- protocols: structural conformance, independent of query order and repetition ---------------
+
+_PMOD = None
+
+
+def _protocol(res, tier, order_kind, only=None):
+    global _PMOD
+    from pyanalyze.analysis_lib import make_module
+    from pyanalyze.annotations import type_from_runtime
+    from pa.run import make_checker
+    from ref import protocols as P
+    if _PMOD is None:
+        _PMOD = make_module(P.SRC)
+    ns = vars(_PMOD)
+    pairs = [(p, k) for p in P.PROTOCOLS for k in P.CLASSES]
+    if order_kind == 1:
+        pairs = pairs[::-1]
+    elif order_kind == 2:
+        pairs = sorted(pairs, key=lambda x: (x[1], x[0]))
+    elif order_kind == 3:
+        pairs = pairs[1::2] + pairs[0::2]
+    ck = make_checker()      # fresh caches for this order
+    pv = {p: type_from_runtime(eval(p, ns)) for p in P.PROTOCOLS}
+    kv = {k: type_from_runtime(ns[k]) for k in P.CLASSES}
+    first = {}
+    for rnd in (0, 1, 2):      # the same checker is asked three times
+        for (p, k) in pairs:
+            if only is not None and [p, k] != list(only) and rnd == 0 and False:
+                continue
+            acc = _accepts(pv[p], kv[k], ck)
+            res.transitions += 1
+            res.validated += 1
+            exp = P.conforms(k, p)
+            if rnd == 0:
+                res.states += 1
+                first[(p, k)] = acc
+                res.outcomes["protocol:accepted=%s/conforms=%s" % (acc, exp)] += 1
+            order = 2 * 10 ** 9 + list(P.PROTOCOLS).index(p.split("[")[0] if p not in P.PROTOCOLS else p) * 100 + list(P.CLASSES).index(k)
+            if acc != exp:
+                res.violation({"law": "protocol-structural", "P": p, "K": k, "verdict": "accepts" if acc else "rejects", "round": min(rnd, 1)},
+                              {"proto": [p, k], "order_kind": order_kind, "order": order},
+                              "protocol %s %s class %s (query order %d, round %d) but the declared members %s" % (p, "accepts" if acc else "rejects", k, order_kind, rnd,
+                                                                                                      "conform" if exp else "do not conform"))
+            elif acc != first[(p, k)]:
+                res.violation({"law": "protocol-history", "P": p, "K": k}, {"proto": [p, k], "order_kind": order_kind, "order": order},
+                              "%s <- %s answered %s first and %s when asked again on the same checker" % (p, k, first[(p, k)], acc))
+    res.sample({"protocol": "PR", "class": "KR2", "accepted": first.get(("PR", "KR2"))})
+
+
 def run_unit(unit):
     kind, tier, lo, hi = unit
     res = UnitResult()
     if kind == "pairs":
         _pairs(res, tier, lo, hi)
-    else:
+    elif kind == "laws":
         _laws(res, tier, lo, hi)
+    elif kind == "typeddict":
+        _typeddict(res, tier)
+    else:
+        _protocol(res, tier, lo)
     return res
 
 
 def replay(case):
     res = UnitResult()
+    if "td" in case:
+        _typeddict(res, "quick", only=case["td"])
+        return list(res.viol.values())
+    if "proto" in case:
+        _protocol(res, "quick", case["order_kind"])
+        return [v for v in res.viol.values() if v["case"]["proto"] == case["proto"]]
     tier = "thorough"
     terms = _setup(tier)[0]
     if case["A"] not in terms and case["A"] not in ANYTERMS:
